@@ -12,11 +12,11 @@ import (
 	"verif/harness/vh"
 )
 
-// Probe for a defect that is recorded in /verif/known_findings.json and not repaired (DESIGN.md 8.10). The generated
-// histories of this package give the client's own cookies simple token values, which is the region where the property
-// holds; this one fixed scenario uses values that browsers send but Go's strict cookie parser drops or rewrites.
+// One fixed scenario that goes beyond the generated histories, whose client cookies have simple token values: values that
+// browsers send but Go's strict cookie parser drops or rewrites. It was first recorded as known finding F10d and now
+// guards the repair (DESIGN.md 8.10).
 var recPK = vh.NewRecorder("C10", "probe-client-cookie-values",
-	"one fixed scenario (known finding F10d): with session tracking enabled a client sends its own cookies with values outside "+
+	"one fixed scenario (defect F10d, repaired): with session tracking enabled a client sends its own cookies with values outside "+
 		"Go's strict grammar (JSON text, non-ASCII, a name without '='); the backend must receive them as the client sent them")
 
 type CookieProbe struct {
@@ -35,7 +35,7 @@ func runProbeCookies(c *CookieProbe) (o vh.Outcome) {
 	req.Header.Set("Cookie", c.Cookie)
 	h.ServeHTTP(vh.NewPlainWriter(), req)
 	if strings.Join(got, "; ") != c.Cookie {
-		o.Err = fmt.Errorf("KNOWN-PROBE F10d: the client sent Cookie: %s (no session cookie among them); with session tracking enabled the backend received %q", c.Cookie, got)
+		o.Err = fmt.Errorf("the client sent Cookie: %s (no session cookie among them); with session tracking enabled the backend received %q", c.Cookie, got)
 	}
 	return
 }
